@@ -78,6 +78,9 @@ pub struct Vt {
     bold: bool,
     pub modes: Modes,
     pub frames: Vec<Frame>,
+    /// frames with a smaller index are not snapshotted (long backlog runs would otherwise hold
+    /// ten thousand screen copies)
+    pub keep_from: u64,
     /// bytes of plain text written after the last frame marker (exit messages etc.)
     pub tail_text: String,
 }
@@ -87,7 +90,7 @@ const MAXH: usize = 200;
 
 impl Vt {
     pub fn new() -> Self {
-        Self { grid: vec![], x: 0, y: 0, fg: 0, bold: false, modes: Modes { cursor_visible: true, ..Default::default() }, frames: vec![], tail_text: String::new() }
+        Self { grid: vec![], x: 0, y: 0, fg: 0, bold: false, modes: Modes { cursor_visible: true, ..Default::default() }, frames: vec![], keep_from: 0, tail_text: String::new() }
     }
 
     fn put(&mut self, ch: char) {
@@ -309,7 +312,9 @@ impl Vt {
         if parts.len() == 4 && parts[0] == "777" && parts[1] == "frame" {
             let k = parts[2].parse().unwrap_or(0);
             let vt_us = parts[3].parse().unwrap_or(0);
-            self.frames.push(Frame { k, vt_us, rows: self.grid.clone() });
+            if k >= self.keep_from {
+                self.frames.push(Frame { k, vt_us, rows: self.grid.clone() });
+            }
             self.tail_text.clear();
         }
     }
